@@ -1,4 +1,22 @@
 """C17 / C18: member and user event coalescing (spec/CoalesceMember.tla, spec/CoalesceUser.tla)."""
+PROPS = ["C17", "C18"]
+# id: (level, what the check establishes, trusted base / assumptions, technique, DESIGN.md section)
+CLAIMS = {
+    'C17': (
+        'model_checking',
+        'TLC checks the C17 monitor exhaustively on spec/CoalesceMember.tla (all event/flush sequences over NM names x 5 kinds); TLC-simulated behaviours are executed on the real memberEventCoalescer and every recorded call is validated against the spec by TLC (Trace_CoalesceMember), with the same monitor evaluated on the observed outputs.',
+        'Trusts TLC, the overlay accessor that constructs the coalescer as serf.Create does, and that coalesceLoop calls Coalesce/Flush from one goroutine.',
+        'TLA+ spec + TLC exhaustive check; TLC-generated schedules replayed on the real code; TLC trace validation with property monitors',
+        '5 C17',
+    ),
+    'C18': (
+        'model_checking',
+        'TLC checks the C18 monitor exhaustively on spec/CoalesceUser.tla (feeds of coalescable/plain user events, member events and queries with Lamport-time ties, flush anywhere); simulated behaviours run on the real userEventCoalescer and through the real coalesceLoop goroutine; every recorded step is validated by TLC against the spec with the monitor on observed outputs.',
+        'Trusts TLC and the overlay accessor; loop-mode runs flush only at shutdown (timers never fire).',
+        'TLA+ spec + TLC exhaustive check; TLC-generated schedules replayed on the real code; TLC trace validation with property monitors',
+        '5 C18',
+    ),
+}
 import json
 import os
 
